@@ -128,48 +128,19 @@ def model_of(ctx, names, name="model"):
     return None if res is None else res["out"]
 
 
-# ---------------------------------------------------------------- defects of the code as found
-# key -> (witness, what).  The model reaches the same fault on the witness (Properties_C13.v,
-# theorems *_refuted).  A witness that still fails is reported through ctx.known_finding when
-# known-findings.txt lists the key, otherwise it is logged as PENDING (proposed-fixes/C13-*.diff).
-DEFECTS = [
-    ("ctor-null", b"_ZC1v", 1,
-     "dd_ctor_dtor_name dereferences the NULL output buffer when no name precedes C1/D0 (also _ZD0v, _ZNC1Ev)"),
-    ("length-overflow", b"_Z2147483647x", 2,
-     "dd_source_name: `dd->pos + num > dd->len` overflows int for a huge <number>; ~2 GB xrealloc / exit(1) follows"),
-    ("rust-dollar-overread", b"_Z3a$C", 3,
-     "dd_source_name: a `$` escape cut off by the end of the string moves p behind the NUL; strchr reads out of bounds"),
-    ("rust-dollar-negative-size", b"_Z1$u20$xx", 5,
-     "dd_source_name: a `$` escape that extends behind the <source-name> gives strncpy a negative size"),
-    ("special-name-index", b"_ZT", 6,
-     "dd_special_name: strchr(\"VTISFJ\", 0) matches the terminator, T_type_name[6] is read"),
-    ("type-loop-hang", b"_Z1aD", 7,
-     "dd_type: `D` at the end of the string returns 0 without consuming; dd_encoding loops for ever"),
-    ("null-result", b"_ZUt_", 8,
-     "demangle() returns NULL for a name that parses but emits nothing (unnamed type); callers use the result"),
+# ---------------------------------------------------------------- witnesses of the repaired defects
+# Names on which the code as found crashed / hung / returned NULL (theorems *_legacy_refuted of
+# Properties_C13.v).  They are ordinary corpus cases now: a regression makes the checker reject the
+# implementation's result -> VIOLATION.
+LEGACY_WITNESSES = [
+    b"_ZC1v", b"_ZD0v", b"_ZNC1Ev",                       # ctor/dtor code without a name: NULL output buffer
+    b"_Z2147483647x", b"_ZN2147483646aE",                 # int overflow in the source-name length test
+    b"_Z3a$C", b"_Z1$u20$xx", b"_ZN3a$C3fooE",            # rust `$` escape running over the name
+    b"_ZT", b"_ZTh", b"_ZTC",                             # strchr matched the terminator
+    b"_Z1aD", b"_Z1aT", b"_Z1aPD",                        # dd_type made no progress: endless loop
+    b"_ZUt_", b"_GLOBAL__sub_I__ZUt_", b"_GLOBAL__sub_I__Z17h0123456789abcdef",   # NULL result
+    b"_ZUlvE2147483647_", b"_ZN1aUlvE2147483647_E",       # lambda numbered INT_MAX: n + 1 overflowed
 ]
-CLASS_KEY = {c: k for k, _, c, _ in DEFECTS}
-CLASS_KEY[4] = "cursor-underflow"
-
-
-def check_witnesses(ctx, exe):
-    names = [w for _, w, _, _ in DEFECTS]
-    out = run_impl(exe, names)
-    pending = []
-    for (key, w, cls, what), r in zip(DEFECTS, out):
-        fails = r[0] != "S"
-        ctx.case(key=("witness", key), tags=["witness:" + key], nontrivial=True)
-        if not fails:
-            ctx.log("defect %s: witness %r no longer fails (returns %r)" % (key, w, r[1]))
-            continue
-        if ctx.kf.listed(ctx.prop, key):
-            ctx.known_finding(key, what, True, {"name": w.decode("latin1"), "impl": r[0]})
-        else:
-            pending.append(key)
-            ctx.log("PENDING-FINDING %s: %s; witness %r -> %s (not yet in known-findings.txt)"
-                    % (key, what, w, r[0] + (" " + r[1] if r[0] == "C" else "")))
-    ctx.extra["defect_witnesses_still_failing"] = pending
-    return out
 
 
 # ---------------------------------------------------------------- stream (a): compiler-produced names
@@ -934,8 +905,8 @@ def common_meta(ctx):
                 "mangled form (reaches the parser)")
     ctx.trusted = [
         "Coq 8.16.1 kernel incl. vm_compute (no native_compute); axioms: none (Print Assumptions: closed under the global context)",
-        "hand-written model coq/theories/C13/Model.v of utils/demangle.c (demangle_simple and all dd_* functions; ctype in the C "
-        "locale; strtoul base 0 of glibc 2.36; xasprintf(\"%s\", NULL) = \"(null)\")",
+        "hand-written model coq/theories/C13/Model.v of utils/demangle.c (demangle_simple and all dd_* functions, variant "
+        "fixed=true = the code as it is now; ctype in the C locale; strtoul base 0 of glibc 2.36)",
         "harness/c/c13_harness.c + props/c13.py (exact-size heap copies of the names, ASan+UBSan object code of utils/demangle.c "
         "from the scratch build, halt on the first report, 1 s CPU cap per name)",
         "corpus oracles: g++ 12 / clang++ 14 / rustc name mangling, c++filt -p, the generator's own qualified names",
@@ -943,8 +914,8 @@ def common_meta(ctx):
     ctx.assume = [
         "symbol strings are NUL-terminated C strings (no embedded NUL), as read from ELF string tables and .sym files",
         "demangler == DEMANGLE_SIMPLE (the default); --demangle=full/no are thin wrappers not covered",
-        "memory safety is judged by AddressSanitizer/UBSan on the explored inputs and by the model's Fault outcomes; "
-        "allocation failure (xrealloc exit) is not modelled except for the int-overflow path",
+        "memory safety is judged by AddressSanitizer/UBSan on the explored inputs and by the model's Fault outcomes "
+        "(theorem C13_total_no_fault_partial leaves only reads before the string start open); allocation failure is not modelled",
         "bounded time = the implementation returns within 1 s of CPU time per name / the model returns within fuel 8*len+64",
     ]
 
@@ -966,8 +937,8 @@ def gen_cases(ctx):
         seen.add(name)
         cases.append({"name": name, "want": want, "origin": origin})
     # (a) corpus
-    for w in [w for _, w, _, _ in DEFECTS]:
-        seen.add(w)                                  # the dedicated witnesses run separately
+    for w in LEGACY_WITNESSES:
+        add(w, None, "legacy-witness")
     for n in unit_test_names():
         add(n, None, "unit-test")
     for m, want, comps in cxx_corpus(ctx, ctx.n(10, 40), ctx.n(8, 30)):
@@ -1010,23 +981,18 @@ def judge(ctx, cases, res, what=""):
     if res is None:
         return
     viol = set(res["violations"])
-    excused = {}
     nviol = 0
     for i in sorted(viol):
         c = cases[i]
         cls = res["cls"][i]
         kind = c["impl"][0]
-        want_kind = {0: None, 7: "T", 8: "N"}.get(cls, "C")
-        if cls in CLASS_KEY and cls != 4 and kind == want_kind:
-            excused[CLASS_KEY[cls]] = excused.get(CLASS_KEY[cls], 0) + 1
-            continue
         nviol += 1
         if nviol <= 3:
-            ctx.violation("C13 violated%s: demangle() %s for the name %r (model predicts: %s)"
+            ctx.violation("C13 violated%s: demangle() %s for the name %r (the model predicts: %s)"
                           % (what, {"N": "returned NULL", "C": "crashed (" + (c["impl"][1] if kind == "C" else "") + ")",
                                     "T": "did not return within the CPU cap", "S": "changed a name that is not of mangled form into %r"
                                     % (c["impl"][1] if kind == "S" else b"")}[kind], c["name"],
-                             "a proper string" if cls == 0 else "class %d %s" % (cls, CLASS_KEY.get(cls, "?"))),
+                             "a proper string" if cls == 0 else "outcome class %d" % cls),
                           {"name": js(c["name"]), "name_hex": c["name"].hex(), "impl": list(map(str, c["impl"])), "origin": c["origin"]},
                           True)
     for i in res["wrong"][:3]:
@@ -1047,10 +1013,8 @@ def judge(ctx, cases, res, what=""):
                       {"correspondence": "C13.Model.demangle vs utils/demangle.c demangle_simple",
                        "first_disagreement": {"name": js(c["name"]), "name_hex": c["name"].hex(), "impl": list(map(str, c["impl"])),
                                               "origin": c["origin"]}}, False)
-    ctx.extra.setdefault("excused_by_known_defect_class", {})
-    for k, v in excused.items():
-        ctx.extra["excused_by_known_defect_class"][k] = ctx.extra["excused_by_known_defect_class"].get(k, 0) + v
     ctx.extra["disagreements_checked"] = ctx.extra.get("disagreements_checked", 0) + len(res["mismatch"])
+    ctx.extra["model_non_string_outcomes"] = ctx.extra.get("model_non_string_outcomes", 0) + sum(1 for x in res["cls"] if x != 0)
 
 
 def run_and_eval(ctx, exe, cases, name):
@@ -1073,7 +1037,6 @@ def run_and_eval(ctx, exe, cases, name):
 def run(ctx):
     common_meta(ctx)
     objdir, exe = setup(ctx)
-    check_witnesses(ctx, exe)
     cases = gen_cases(ctx)
     res = run_and_eval(ctx, exe, cases, "cases")
     # (d) idempotence: every distinct plain result is a case of its own
